@@ -79,6 +79,17 @@ def main(tier='quick'):
             for tr in trs:
                 traces.append(tr)
                 metas.append({'svc': 'commitment-' + kind, 'overlapping_message_ids': list(pair), 'policy': 'eager'})
+    # one service object, ONE association and context, requests of different commands of the shared class in a row
+    for kinds in (('naction', 'nevent'), ('nevent', 'naction'), ('naction', 'nevent', 'naction', 'nevent'), ('nevent', 'nevent', 'naction')):
+        for ctx in (1, 255):
+            ms = [rng.choice(mids) for _ in kinds]
+            trs, extras = K.run_commit_sequence(rng, kinds, ms, ctx)
+            for tr, extra, kind in zip(trs, extras, kinds):
+                meta = {'svc': 'commitment-' + kind, 'one_association_sequence': list(kinds), 'mids': ms, 'ctx': ctx, 'policy': 'eager'}
+                for k, val in extra.items():
+                    v.report({'site': 'sopclass.StorageCommitment', 'clause': k}, val, replay=meta)
+                traces.append(tr)
+                metas.append(meta)
     # the handler loop itself: several requests of one association over contexts that share an SOP class
     n_loops = 0
     for li in range(40 if tier == 'quick' else 600):
